@@ -7,5 +7,5 @@ Extraction Language OCaml.
 Extraction "ocaml/model_inputs.ml" keep_nat storage
   clip_table select_weather bind_weather weather_at as_table
   schedule_reindex irr_schedule irr_smt
-  np_interp interpolate gw_series gw_daily gw_at
+  np_interp obs_sorted gw_time_interp gw_series gw_daily gw_at
   read_field_management co2_process co2_init co2_season.
